@@ -155,6 +155,11 @@ add("refactor_sorted_reverse_slice", (GU, '''    attr_neighbors = sorted(
         [m.nodes[n][attribute] for n in m.neighbors(atom)], reverse=True
     )''', '''    attr_neighbors = sorted([m.nodes[n][attribute] for n in m.neighbors(atom)])[::-1]'''), silent=True)
 
+add("edge_list_descending", (SER, "sorted_edges = sorted([sorted(edge) for edge in m.edges()])", "sorted_edges = sorted([sorted(edge) for edge in m.edges()], reverse=True)"), fires={"R-LAYOUT"},
+    note="order-independent but descending: only the layout rule sees it")
+add("edge_endpoints_descending", (SER, "sorted([sorted(edge) for edge in m.edges()])", "sorted([sorted(edge, reverse=True) for edge in m.edges()])"), fires={"R-LAYOUT"})
+add("node_attributes_descending", (SER, "for label, attrs in sorted(m.nodes(data=True)):", "for label, attrs in sorted(m.nodes(data=True), key=lambda t: -t[0]):"), fires={"R-LAYOUT"})
+
 # ---------------------------------------------------------------- bliss / index spaces
 add("bliss_explicit_inverse_igraph10", (CAN, '''    old_labels_in_canonical_order = m_igraph.permute_vertices(permutation).vs[
         "_nx_name"
@@ -227,6 +232,8 @@ add("recursive_helper_in_serializer", (SER, '''def _write_edge_list(m: nx.Graph)
 def _write_edge_list(m: nx.Graph) -> str:
     _count_down(m.number_of_edges())
     sorted_edges'''), fires={"R-NOREC"})
+add("size_limit_in_canonicalization", (CAN, "    m_partitioned_by_invariant_code = partition_molecule_by_attribute(m, INVARIANT_CODE)", "    if m.number_of_nodes() > 999:\n        raise ValueError(\"too large\")\n    m_partitioned_by_invariant_code = partition_molecule_by_attribute(m, INVARIANT_CODE)"), fires={"R-FAILSITES"})
+add("explored_mark_dropped", (SER, "            m.nodes[a][EXPLORED] = True\n", ""), fires={"R-FAILSITES"}, note="the label-count assertion is no longer discharged (and the loop no longer terminates)")
 add("own_value_not_first", (GU, "return tuple([attr_atom] + attr_neighbors)", "return tuple(attr_neighbors + [attr_atom])"), fires={"R-OWNFIRST"})
 
 # ---------------------------------------------------------------- readers
